@@ -9,6 +9,7 @@ import (
 	"encoding/json"
 	"fmt"
 	"math/big"
+	"strconv"
 	"strings"
 	"time"
 
@@ -41,20 +42,21 @@ type CField struct {
 }
 
 type ACred struct {
-	TypeName   string
-	TypeIRI    string
-	TypeURL    string
-	Fields     []CField
-	SerAttr    string // "" = merklized schema
-	ID         string
-	SubjectDID string // "" = no subject id
-	Issuer     string
-	Issuance   *time.Time
-	Expiration *time.Time
+	TypeName      string
+	TypeIRI       string
+	TypeURL       string
+	Fields        []CField
+	SerAttr       string // "" = merklized schema
+	ID            string
+	SubjectDID    string // "" = no subject id
+	Issuer        string
+	Issuance      *time.Time
+	Expiration    *time.Time
 	SubjectTypeAs string // "string" | "array2" | "none"
-	TopTypes   []string
-	RevNonce   uint64
-	OtherType  string
+	TopTypes      []string
+	RevNonce      uint64
+	OtherType     string
+	ExtraSubject  []KV // further members of credentialSubject, as written (statements the abstract credential does not know)
 }
 
 var didType = func() [2]byte {
@@ -197,6 +199,7 @@ func (c *ACred) JSON() []byte {
 	if nested != nil {
 		subj = append(subj, KV{"addr", nested})
 	}
+	subj = append(subj, c.ExtraSubject...)
 	tt := make([]any, len(c.TopTypes))
 	for i, t := range c.TopTypes {
 		tt[i] = t
@@ -264,6 +267,47 @@ func mustTree() *merkletree.MerkleTree {
 	return t
 }
 
+// pickAuthNonce: revocation nonces over the whole uint64 range. In-process the status entry carries the uint64 itself;
+// a credential decoded from JSON carries a float64 (see jsonLossyNonce).
+var lossyNonces bool // set by C07 only: the other properties' set-ups need issuers whose credentials verify
+
+func pickAuthNonce(r *Rng) uint64 {
+	switch r.Intn(10) {
+	case 0, 1:
+		return r.U64() >> 11 // below 2^53
+	case 2:
+		if !lossyNonces {
+			return uint64(9224+r.Intn(9000)) * 1000000000000000
+		}
+		return r.U64() | 1<<63 // [2^63, 2^64): almost surely not the shortest decimal of its float64 (known finding F8)
+	case 3, 4:
+		return uint64(9224+r.Intn(9000)) * 1000000000000000 // above 2^63 and short in decimal: survives a float64 JSON round trip
+	default:
+		return uint64(r.Intn(1000))
+	}
+}
+
+// nonceNeighbour: another nonce
+func nonceNeighbour(n uint64) uint64 {
+	if n == 1<<64-1 {
+		return n - 1
+	}
+	return n + 1
+}
+
+// jsonLossyNonce: the nonce does not survive encoding/json's generic decode (float64) followed by re-encoding, which writes
+// the shortest decimal that denotes the same float64 - another integer
+func jsonLossyNonce(n uint64) bool {
+	m, ok := nonceThroughJSON(n)
+	return !ok || m != n
+}
+
+// nonceThroughJSON: what a uint64 field reads after the number has been through a generic decode and re-encoding
+func nonceThroughJSON(n uint64) (uint64, bool) {
+	m, err := strconv.ParseUint(strconv.FormatFloat(float64(n), 'f', -1, 64), 10, 64)
+	return m, err == nil
+}
+
 func NewIssuer(r *Rng, extraClaims int) *Issuer { return NewIssuerWith(r, extraClaims) }
 
 // NewIssuerWith: an identity whose genesis claims tree holds the auth claim and the given claims
@@ -276,7 +320,7 @@ func NewIssuerWith(r *Rng, extraClaims int, genesisClaims ...*core.Claim) *Issue
 	}
 	is.sk = babyjub.PrivateKey(skb)
 	pk := is.sk.Public()
-	is.authNonce = uint64(r.Intn(1000))
+	is.authNonce = pickAuthNonce(r)
 	ac, err := core.NewClaim(core.AuthSchemaHash, core.WithIndexDataInts(pk.X, pk.Y), core.WithRevocationNonce(is.authNonce))
 	if err != nil {
 		panic(err)
@@ -391,7 +435,7 @@ func (is *Issuer) SignBJJ(claim *core.Claim) *verifiable.BJJSignatureProof2021 {
 	}
 	return &verifiable.BJJSignatureProof2021{Type: verifiable.BJJSignatureProofType, CoreClaim: claimHex, Signature: hex.EncodeToString(sig[:]),
 		IssuerData: verifiable.IssuerData{ID: is.did.String(), AuthCoreClaim: authHex, MTP: mtp, State: is.StateObj(),
-			CredentialStatus: map[string]any{"id": "https://status.example/auth", "type": "SparseMerkleTreeProof", "revocationNonce": float64(is.authNonce)}}}
+			CredentialStatus: map[string]any{"id": "https://status.example/auth", "type": "SparseMerkleTreeProof", "revocationNonce": is.authNonce}}}
 }
 
 // IssueSMT inserts the claim in the claims tree and builds an Iden3SparseMerkleTreeProof
